@@ -290,27 +290,53 @@ pub fn install_panic_recorder() {
     }));
 }
 
-/// panics seen in the main process that have not been caught by `guarded`: (thread, message, location)
-static OPEN_PANICS: std::sync::Mutex<Vec<(std::thread::ThreadId, String, String)>> = std::sync::Mutex::new(Vec::new());
+/// panics seen in the main process that have not been caught by `guarded`:
+/// (thread, message, location, raised by library code?)
+static OPEN_PANICS: std::sync::Mutex<Vec<(std::thread::ThreadId, String, String, bool)>> = std::sync::Mutex::new(Vec::new());
 
-/// Hook for the main (non-child) process: prints every panic (message + location) and remembers the
-/// FIRST one process-wide, so that a panic propagated out of a rayon worker keeps its origin.
+/// Is a panic with this location raised by constriction (as opposed to the harness)? The location alone
+/// decides when it lies in the library's or the harness' sources; panics located in std/core (generic
+/// operator impls such as `Shr::shr`, `unwrap` without track_caller, ...) are attributed by the innermost
+/// non-std frame of the backtrace.
+fn raised_by_library(loc: &str) -> bool {
+    let in_harness = loc.contains("/verif/mc/") || (!loc.starts_with('/') && loc.starts_with("src/"));
+    if in_harness { return false; }
+    if loc.starts_with('/') && loc.contains("/src/") && !loc.starts_with("/rustc/") && !loc.contains("/.cargo/") { return true; }
+    let bt = std::backtrace::Backtrace::force_capture().to_string();
+    if std::env::var("CVMC_DEBUG_BT").is_ok() { eprintln!("{}", bt.lines().take(60).collect::<Vec<_>>().join("\n")); }
+    for line in bt.lines() {
+        let l = line.trim_start();
+        // frame lines look like "12: constriction::stream::chain::...": skip the "at file:line" lines
+        let Some((_, name)) = l.split_once(": ") else { continue };
+        if l.starts_with("at ") { continue; }
+        let name = name.trim_start_matches('<');
+        if name.starts_with("cvmc::isolate::") { continue; } // the panic hook's own frames
+        if name.starts_with("constriction::") || name.contains(" as constriction::") || name.starts_with("constriction[") { return true; }
+        if name.starts_with("cvmc::") || name.contains(" as cvmc::") || name.starts_with("cvmc[") { return false; }
+    }
+    false
+}
+
+/// Hook for the main (non-child) process: prints every panic (message + location) and remembers those
+/// that are not caught by `guarded`, so that a panic propagated out of a rayon worker keeps its origin.
 pub fn install_first_panic_recorder() {
     std::panic::set_hook(Box::new(|info| {
         let msg = info.payload().downcast_ref::<String>().cloned()
             .or_else(|| info.payload().downcast_ref::<&str>().map(|s| s.to_string()))
             .unwrap_or_default();
         let loc = info.location().map(|l| format!("{}:{}", l.file(), l.line())).unwrap_or_default();
-        eprintln!("panicked: {msg} at {loc}");
+        let lib = raised_by_library(&loc);
+        eprintln!("panicked: {msg} at {loc}{}", if lib { " (inside constriction)" } else { "" });
         LAST_PANIC.with(|p| *p.borrow_mut() = Some((msg.clone(), loc.clone())));
         if let Ok(mut g) = OPEN_PANICS.lock() {
-            if g.len() < 64 { g.push((std::thread::current().id(), msg, loc)); }
+            if g.len() < 64 { g.push((std::thread::current().id(), msg, loc, lib)); }
         }
     }));
 }
-/// the first panic that was not caught by `guarded` (i.e. the one that escaped an explorer)
-pub fn first_panic() -> Option<(String, String)> {
-    OPEN_PANICS.lock().ok().and_then(|g| g.first().map(|x| (x.1.clone(), x.2.clone())))
+/// the first panic that was not caught by `guarded` (i.e. the one that escaped an explorer):
+/// (message, location, raised by library code)
+pub fn first_panic() -> Option<(String, String, bool)> {
+    OPEN_PANICS.lock().ok().and_then(|g| g.first().map(|x| (x.1.clone(), x.2.clone(), x.3)))
 }
 fn forget_caught_panic() {
     if let Ok(mut g) = OPEN_PANICS.lock() {
